@@ -368,6 +368,48 @@ def oracle_template_free(ck, rng):
                              oracle="template_free_pose_recovery", measured=detail)
 
 
+def oracle_interleaved_batch(ck, rng):
+    """a batch of two tomograms whose molecule table interleaves them (a0, b0, a1, b1) and whose molecules need different corrections:
+    every molecule is moved onto its own particle and carries its own shift features"""
+    from acryo import BatchLoader, Molecules, TomogramSimulator
+    from acryo.alignment import ZNCCAlignment, PCCAlignment
+    from scipy.spatial.transform import Rotation
+    tmpl = template()
+    for it in range(1 if ck.tier == "quick" else 5):
+        scale = [0.8, 2.0, 0.5][it % 3]
+        M = [ZNCCAlignment, PCCAlignment][it % 2]
+        b = BatchLoader(order=3, scale=scale, output_shape=tmpl.shape)
+        truth = {}
+        rank = 0
+        for k in range(2):
+            Rtrue = Rotation.from_rotvec(rng.normal(size=(2, 3)) * 0.5)
+            ptrue = np.stack([np.array([20.0, 20.0, 20.0 + 26 * j]) + rng.uniform(-0.5, 0.5, size=3) for j in range(2)])
+            sim = TomogramSimulator(order=3, scale=scale)
+            sim.add_molecules(Molecules(ptrue * scale, Rtrue), tmpl)
+            tomo = sim.simulate((40, 40, 66))
+            s = np.round(rng.uniform(-2.5, 2.5, size=(2, 3)) * 4) / 4
+            p = ptrue - np.stack([Rtrue[j].apply(s[j]) for j in range(2)])
+            ranks = [2 * j + k for j in range(2)]              # a0 -> 0, b0 -> 1, a1 -> 2, b1 -> 3
+            b.add_tomogram(tomo, Molecules(p * scale, Rtrue, features={"rank": ranks}), image_id=k)
+            for j in range(2):
+                truth[ranks[j]] = (ptrue[j], s[j])
+        for label, ld in (("registration order", b), ("interleaved (sorted by rank)", b.replace(molecules=b.molecules.sort("rank")))):
+            ck.oracle_count("interleaved_batch_alignment", 1, 1)
+            try:
+                mo = ld.align(tmpl, max_shifts=3.0 * scale, alignment_model=M).molecules
+                rk = mo.features["rank"].to_list()
+                perr = np.array([np.abs(mo.pos[i] / scale - truth[r][0]).max() for i, r in enumerate(rk)])
+                fs = np.stack([mo.features["align-dz"].to_numpy(), mo.features["align-dy"].to_numpy(), mo.features["align-dx"].to_numpy()], axis=1)
+                ferr = np.array([np.abs(fs[i] - truth[r][1] * scale).max() for i, r in enumerate(rk)])
+                detail = "" if perr.max() <= 0.5 and ferr.max() <= 0.5 * scale + 0.006 else \
+                    f"position errors {np.round(perr, 2).tolist()} px, shift-feature errors {np.round(ferr, 2).tolist()} nm (table order: ranks {rk})"
+            except Exception as e:  # noqa
+                detail = f"raised {type(e).__name__}: {e}"
+            if detail:
+                ck.violation(what=f"batch of two tomograms, {label}, {M.__name__}: {detail}", inp={"order": label, "scale": scale, "model": M.__name__, "seed": ck.seed, "iteration": it},
+                             key={"site": "e2e-interleaved-batch", "interleaved": label.startswith("interleaved")}, oracle="interleaved_batch_alignment", measured=detail)
+
+
 def oracle_grouped_ranges(ck, rng):
     """grouped alignment with several groups at a pixel size away from 1: every group is searched over the same range (in nm), so
     particles displaced by up to that range are recovered in the last group as well as in the first; with one and with two templates"""
@@ -435,6 +477,7 @@ def run(ck: common.Check):
     oracle_e2e(ck, rng)
     oracle_template_free(ck, np.random.default_rng(ck.seed + 10101))
     oracle_grouped_ranges(ck, np.random.default_rng(ck.seed + 10201))
+    oracle_interleaved_batch(ck, np.random.default_rng(ck.seed + 10301))
 
 
 def replay(data):
